@@ -6,6 +6,7 @@ import (
 	"sort"
 	"strconv"
 	"strings"
+	"sync"
 	"time"
 
 	"verif/internal/core"
@@ -63,6 +64,8 @@ type c07Run struct {
 	Quiescent  bool
 	Err        error
 	Panic      string
+	Lagged     string // a batch that a slow asynchronous sink read differently from what was delivered
+	LagChecked int
 }
 
 func c07Exec(c *c07Case, rows []Row, expect int) (res c07Run) {
@@ -71,6 +74,20 @@ func c07Exec(c *c07Case, rows []Row, expect int) (res c07Run) {
 		return c07Run{Err: err}
 	}
 	rec := eng.Attach(s)
+	// a second, asynchronous sink that looks at its batch a little later, as a sink that does I/O would: what it
+	// reads must be one of the delivered batches
+	var lagMu sync.Mutex
+	var lagged []string
+	lagSink := c.Index%3 == 1
+	if lagSink {
+		s.AddSink(func(batch []map[string]any) {
+			time.Sleep(time.Millisecond)
+			j := core.J(batch)
+			lagMu.Lock()
+			lagged = append(lagged, j)
+			lagMu.Unlock()
+		})
+	}
 	defer func() {
 		if p := recover(); p != nil {
 			res.Panic = fmt.Sprint(p)
@@ -96,6 +113,29 @@ func c07Exec(c *c07Case, rows []Row, expect int) (res c07Run) {
 	}
 	res.Dels = rec.Deliveries()
 	res.Overloaded = rec.Overloaded()
+	if lagSink && res.Quiescent {
+		for k := 0; k < 400; k++ { // the slow sink's calls are still running for a moment
+			lagMu.Lock()
+			n := len(lagged)
+			lagMu.Unlock()
+			if n >= len(res.Dels) {
+				break
+			}
+			time.Sleep(5 * time.Millisecond)
+		}
+		delivered := map[string]bool{}
+		for _, d := range res.Dels {
+			delivered[core.J(d.Rows)] = true
+		}
+		lagMu.Lock()
+		for _, j := range lagged {
+			res.LagChecked++
+			if !delivered[j] && res.Lagged == "" {
+				res.Lagged = j
+			}
+		}
+		lagMu.Unlock()
+	}
 	return res
 }
 
@@ -275,6 +315,11 @@ func execC07(ctx *core.Ctx, c *c07Case) {
 	}
 	if res.Overloaded {
 		ctx.Inconclusive("engine declared overload")
+		return
+	}
+	ctx.Count("slow_sink_batches_compared", int64(res.LagChecked))
+	if res.Lagged != "" {
+		viol("batch.altered_before_slow_sink_read", map[string]string{"shapes": c.shapes()}, "a second, asynchronous sink that reads its batch 1 ms after being called read "+res.Lagged+", which is none of the batches delivered to the synchronous sink: "+core.J(res.Dels))
 		return
 	}
 
